@@ -92,6 +92,7 @@ var (
 	sibDirSecret  = "C11-SIBDIR-91b7e3f5ac"
 	plantedSecret = "C11-PLANTED-ROOT-5e1a9c3b7d"
 	planted2Secr  = "C11-PLANTED-PARENT-c4f8a2e6b0"
+	victimSecret  = "C11-VICTIM-a-0d6b3f9e21"
 )
 
 func mustDigest(b []byte) core.Digest {
@@ -319,6 +320,18 @@ func newSandbox(sf *surface, planted bool, ifd int) (*sandbox, error) {
 			sent[filepath.Join(g2, "data")] = planted2Secr
 			sent[filepath.Join(g3, "data")] = planted2Secr + "-3"
 			sb.secrets = append(sb.secrets, plantedSecret, planted2Secr)
+		}
+	}
+	if planted {
+		// victims whose names the alphabets can spell: at every level beside and
+		// above the store directories a regular file `a` and an empty directory `aa`
+		for i, dir := range []string{root, g2, g3} {
+			sec := fmt.Sprintf("%s-%d", victimSecret, i)
+			sent[filepath.Join(dir, "a")] = sec
+			sb.secrets = append(sb.secrets, sec)
+			if err := os.MkdirAll(filepath.Join(dir, "aa"), 0o755); err != nil {
+				return nil, err
+			}
 		}
 	}
 	for p, c := range sent {
@@ -969,6 +982,12 @@ var tokens = []string{".", "/", "a", "%2e", "%2f", "%25", "..", "\\"}
 // without a separator boundary accepts those).
 var siblingTokens = []string{"..", "/", "cache", "upload", "a", "%2f"}
 
+// traversalTokens spells names that climb out of a store directory and then
+// name a planted victim plus one more path segment (an operation that acts on
+// the PARENT of the named entry, e.g. pruning empty directories, hits the
+// victim itself).
+var traversalTokens = []string{"../", "..%2f", "a/a", "aa/a", "a%2fa", "aa%2fa"}
+
 // params returns every distinct string of <= maxLen tokens, plus the
 // percent-encoded form of each (url.PathEscape), sorted.
 func params(maxLen int) (all []string, nSeq int) {
@@ -990,9 +1009,20 @@ func params(maxLen int) (all []string, nSeq int) {
 	}
 	alphabet = tokens
 	rec("", 0)
+	full := maxLen
 	alphabet = siblingTokens
 	if maxLen > 4 {
 		maxLen = 4 // the sibling family is only needed up to "../cachea/a"-like names
+	}
+	rec("", 0)
+	// traversal family: compound tokens, so that "<k levels up>/<victim>/<one
+	// more segment>" (the victims `a` and `aa` planted beside and above the store
+	// directories) is reachable within the bound: "../../aa/a" is 3 tokens,
+	// "../../../a/a" (the highest planted level) is 4.
+	alphabet = traversalTokens
+	maxLen = 3
+	if full > 4 {
+		maxLen = 4
 	}
 	rec("", 0)
 	for s := range set {
@@ -1136,8 +1166,8 @@ func main() {
 	}
 	ps, nSeq := params(maxLen)
 	names := directNames(ps)
-	run.Rule = fmt.Sprintf("all %d token sequences of length 1..%d over {. / a %%2e %%2f %%25 .. \\} -> %d distinct URL parameter strings (each raw and url.PathEscape'd) substituted into every parameterised route of the real build-index tag server and origin blob server (ServeHTTP; {digest} parameters also with a leading `sha256:`), and %d distinct unescaped names passed to the SimpleStore/CAStore APIs and to the proxy storage driver's _uploads/<id> paths; every case is run in a bare and in a planted sandbox (files named `data` beside and above the store directories). A case is counted distinct and non-trivial when the router/API delivered the string to the code under test: key = (surface, route or call, name as seen after unescaping).", nSeq, maxLen, len(ps), len(names))
-	run.Assume("small-scope: names of at most " + fmt.Sprint(maxLen) + " tokens over the 8-token hostile alphabet plus all sequences of at most 4 tokens over {.. / cache upload a %2f} (names of siblings that share a store directory's base name as prefix); longer names and other bytes (NUL, unicode, other percent escapes) are not enumerated")
+	run.Rule = fmt.Sprintf("all %d token sequences of length 1..%d over {. / a %%2e %%2f %%25 .. \\} -> %d distinct URL parameter strings (each raw and url.PathEscape'd) substituted into every parameterised route of the real build-index tag server and origin blob server (ServeHTTP; {digest} parameters also with a leading `sha256:`), and %d distinct unescaped names passed to the SimpleStore/CAStore APIs and to the proxy storage driver's _uploads/<id> paths; every case is run in a bare and in a planted sandbox (files named `data`, and victims the alphabets can spell -- a regular file `a` and an empty directory `aa` -- beside, one and two levels above the store directories). A case is counted distinct and non-trivial when the router/API delivered the string to the code under test: key = (surface, route or call, name as seen after unescaping).", nSeq, maxLen, len(ps), len(names))
+	run.Assume("small-scope: names of at most " + fmt.Sprint(maxLen) + " tokens over the 8-token hostile alphabet plus all sequences of at most 4 tokens over {.. / cache upload a %2f} (names of siblings that share a store directory's base name as prefix) plus all sequences of at most 3 (quick) / 4 (thorough) compound tokens over {../ ..%2f a/a aa/a a%2fa aa%2fa} (climb k levels, name a planted victim, one more segment); longer names and other bytes (NUL, unicode, other percent escapes) are not enumerated")
 	run.Assume("observer: before/after snapshot (path,type,size,mtime,sha256) of the whole parent tree of the store directories; creation/modification/deletion outside is always seen, a pure read outside is seen only when its content reaches the response (sentinel contents are searched in every response body / returned byte slice)")
 	run.Assume("remote services (storage backend, other origins, neighbours, write-back queue, tag replication) are fakes; names handed to them are not files of this server")
 	run.Assume("HTTP layer modelled as net/http does: request target parsed by url.ParseRequestURI, no path cleaning before the chi router")
